@@ -1,12 +1,19 @@
 /-
   C07 — guards own exactly one grant and release it exactly once.
   Core part (word locks): a grant can be released only while it is held, and a released request is
-  finished for good, so no execution releases a grant twice; the guard classes' ownership rules
-  (who owns which grant after construction / move / conversion / destruction) are the client model
-  `Model/WClient.lean`, compared instruction by instruction with the real guard classes.
+  finished for good, so no execution releases a grant twice.
+  Guard classes (second half of this file): the client model `Model/WClient.lean` — the guard classes of
+  PessimisticLock / OptimisticLock as compared instruction by instruction with the real code — keeps, for
+  every well-typed program, any number of threads / locks / guard variables and EVERY schedule, the
+  guard-algebra invariant of `Proofs/WClientDefs.lean`:
+  a guard that converts to true owns a live grant of its own class; no two guards (nor a guard and a
+  temporary) own the same grant; every grant is owned by a guard, a temporary or the call in progress
+  (none is dropped); every release / conversion the guard classes attempt is enabled (none is released
+  twice); when all threads have finished and all guards are gone, no grant is left.
 -/
 import CppUtil.Props.C01
 import CppUtil.Proofs.WLockMore
+import CppUtil.Proofs.WClientThm
 
 namespace CppUtil.Props
 open CppUtil CppUtil.WLock
@@ -140,5 +147,122 @@ theorem c07_release_once (P : WParams) (acts : List Act) :
       obtain ⟨s1, e⟩ := x
       rw [hst] at hr
       exact ih s1 s' i r (c07_done_absorbing P s s1 a e i r hd hst) hr nv
+
+
+/-! ## Guard classes (client layer): every program, every schedule -/
+
+open CppUtil.WClient
+
+/-- **a guard that owns** (`operator bool`, i.e. `dest_ != nullptr` / `has_lock_`) **owns a live grant of its class** on the
+    lock it points at — for every state reachable by any schedule of any well-formed client program.  The only
+    exception is the quantum in which the guard's old grant has just been released and the guard is about to be
+    overwritten (`StaleOk`: its thread is inside that very instruction). -/
+theorem c07_client_owner_holds {P : WParams} {vo : Nat → Nat} {c0 c : Client} (hi : Initial c0) (hwf : WF vo c0)
+    (hr : ReachableC P c0 c) (v lk a : Nat) (h : own c v = some (lk, a)) :
+    (∃ s, agentLoc c lk a = .held (kindOf c v).gmode s) ∨ ((∃ r, agentLoc c lk a = .done r) ∧ StaleOk vo c v) := by
+  obtain ⟨ao, hI, _⟩ := reachable_inv hi hwf hr
+  exact (hI.varOk v lk a h).2.2
+
+/-- at a quantum boundary of its thread (the thread is blocked on an atomic operation, finished, or not yet started)
+    an owning guard always holds its grant -/
+theorem c07_client_owner_holds_at_boundary {P : WParams} {vo : Nat → Nat} {c0 c : Client} (hi : Initial c0) (hwf : WF vo c0)
+    (hr : ReachableC P c0 c) (v lk a : Nat) (h : own c v = some (lk, a))
+    (hb : (getThread c (vo v)).pend ≠ .none ∨ (getThread c (vo v)).finished = true) :
+    ∃ s, agentLoc c lk a = .held (kindOf c v).gmode s := by
+  rcases c07_client_owner_holds hi hwf hr v lk a h with h1 | ⟨_, h2⟩
+  · exact h1
+  · rw [StaleOk_iff] at h2
+    obtain ⟨_, _, _, h4, h5⟩ := h2
+    rcases hb with hb | hb
+    · exact absurd h4 hb
+    · rw [h5] at hb; cases hb
+
+/-- **exactly one owner**: two guard variables never own the same live grant, and a temporary (the prvalue a
+    member function returns) never shares its grant with a variable -/
+theorem c07_client_one_owner {P : WParams} {vo : Nat → Nat} {c0 c : Client} (hi : Initial c0) (hwf : WF vo c0)
+    (hr : ReachableC P c0 c) :
+    (∀ v v' r, own c v = some r → own c v' = some r → isHeld (agentLoc c r.1 r.2) → v = v') ∧
+    (∀ t lk a, (getThread c t).tmp.own = some (lk, a) → isHeld (agentLoc c lk a) ∧ ∀ v, own c v ≠ some (lk, a)) := by
+  obtain ⟨ao, hI, _⟩ := reachable_inv hi hwf hr
+  exact ⟨hI.inj, fun t lk a h => ⟨(hI.tmpOk t lk a h).2.2.1, (hI.tmpOk t lk a h).2.2.2⟩⟩
+
+/-- `OptGuard`s never own a grant (their `operator bool` is about the pointer only) -/
+theorem c07_client_optguard_owns_nothing {P : WParams} {vo : Nat → Nat} {c0 c : Client} (hi : Initial c0) (hwf : WF vo c0)
+    (hr : ReachableC P c0 c) (v : Nat) (hk : kindOf c v = .Opt) : own c v = none := by
+  obtain ⟨ao, hI, _⟩ := reachable_inv hi hwf hr
+  exact hI.optNone v hk
+
+/-- **no grant is dropped**: every request that holds a grant is owned by a guard variable, by a temporary, or is
+    the request of the call its thread is executing right now -/
+theorem c07_client_no_orphan {P : WParams} {vo : Nat → Nat} {c0 c : Client} (hi : Initial c0) (hwf : WF vo c0)
+    (hr : ReachableC P c0 c) (lk a : Nat) (hg : (agentLoc c lk a).grant? ≠ none) :
+    (∃ v, own c v = some (lk, a)) ∨ (∃ t, (getThread c t).tmp.own = some (lk, a)) ∨
+    (∃ t, (getThread c t).finished = false ∧ (getThread c t).phase = 1 ∧ (getThread c t).ag = a) := by
+  obtain ⟨ao, hI, _⟩ := reachable_inv hi hwf hr
+  rcases hI.noOrphan lk a (lk_lt_of_grant hg) hg with h | h | ⟨t, h⟩
+  · exact Or.inl h
+  · exact Or.inr (Or.inl h)
+  · obtain ⟨_, h1, h2, h3, _⟩ := h
+    exact Or.inr (Or.inr ⟨t, h1, h2, h3⟩)
+
+/-- **released exactly once, part 1 — nothing is left**: when every thread has finished and every guard variable
+    has been destroyed (owns nothing), no request holds a grant any more -/
+theorem c07_client_quiescent {P : WParams} {vo : Nat → Nat} {c0 c : Client} (hi : Initial c0) (hwf : WF vo c0)
+    (hr : ReachableC P c0 c) (hfin : ∀ t, t < c.threads.size → (getThread c t).finished = true)
+    (hvars : ∀ v, own c v = none) (lk a : Nat) : (agentLoc c lk a).grant? = none := by
+  obtain ⟨ao, hI, _⟩ := reachable_inv hi hwf hr
+  cases hg : (agentLoc c lk a).grant? with
+  | none => rfl
+  | some m =>
+    exfalso
+    have hg' : (agentLoc c lk a).grant? ≠ none := by rw [hg]; simp
+    rcases hI.noOrphan lk a (lk_lt_of_grant hg') hg' with ⟨v, h⟩ | ⟨t, h⟩ | ⟨t, h⟩
+    · rw [hvars] at h; cases h
+    · by_cases ht : t < c.threads.size
+      · have := hI.thr t ht
+        simp only [TOk, hfin t ht, if_true] at this
+        rw [this.1] at h; cases h
+      · have : getThread c t = {} := by
+          simp [getThread, Array.getD_eq_getD_getElem?, Array.getElem?_eq_none (Nat.le_of_not_lt ht)]
+        rw [this] at h; cases h
+    · obtain ⟨hpc, h1, _⟩ := h
+      by_cases ht : t < c.threads.size
+      · rw [hfin t ht] at h1; cases h1
+      · have : getThread c t = {} := by
+          simp [getThread, Array.getD_eq_getD_getElem?, Array.getElem?_eq_none (Nat.le_of_not_lt ht)]
+        rw [this] at hpc; simp at hpc
+
+/-- **released exactly once, part 2 — never twice**: whenever a guard class is about to release a grant (destructor,
+    move assignment over an owning guard: the thread is blocked on `Unlock*`), the request still holds that grant, so
+    the release is enabled in the lock model; together with `c07_release_once` no grant is ever released twice -/
+theorem c07_client_release_enabled {P : WParams} {vo : Nat → Nat} {c0 c : Client} (hi : Initial c0) (hwf : WF vo c0)
+    (hr : ReachableC P c0 c) (t lk a : Nat) (nv : BitVec 32) (ht : t < c.threads.size)
+    (hf : (getThread c t).finished = false) (hp : (getThread c t).pend = .rel lk a nv) :
+    isHeld (agentLoc c lk a) ∧ (WLock.step P (lockSt c lk) (.release a nv)).isSome = true := by
+  obtain ⟨ao, hI, hwf'⟩ := reachable_inv hi hwf hr
+  have htok := hI.thr t ht
+  simp only [TOk, hf, hp, reduceCtorEq, if_false, Bool.false_eq_true] at htok
+  split at htok
+  · obtain ⟨_, _, _, hheldV, _⟩ := stage_rel_elim htok
+    obtain ⟨_, halV⟩ := viewOf_al_ne_idle (isHeld_ne_idle hheldV)
+    rw [halV] at hheldV
+    refine ⟨hheldV, ?_⟩
+    obtain ⟨m, s, hms⟩ := hheldV
+    rw [c07_release_enabled_iff]
+    have := agentLoc_some (c := c) (lk := lk) (a := a) (by rw [hms]; simp)
+    exact ⟨m, s, by rw [this, hms]⟩
+  · obtain ⟨_, h2⟩ := htok; cases h2
+
+/-- non-vacuity: `mkClient` states are `Initial`; a two-thread program over the guard classes (LockSIX, UpgradeToX,
+    operator bool, destructor / LockX, destructor) passes the executable premise `wfB`, which implies `WF` -/
+example : Initial (mkClient 1 #[.S, .X] #[#[.lock .S 0 0, .dtor 0], #[.lock .X 1 0, .dtor 1]]) :=
+  mkClient_initial _ _ _
+
+def exClient : Client :=
+  { locks := #[WLock.init], vars := #[{}, {}, {}], kinds := #[.SIX, .X, .X], ghost := #[none, none, none],
+    threads := #[{ prog := #[.lock .SIX 0 0, .upg 1 0, .bool 1, .dtor 1] }, { prog := #[.lock .X 2 0, .dtor 2] }],
+    pay := #[(0, 0)] }
+
+example : WF (voOf exClient) exClient := wfB_sound (by decide)
 
 end CppUtil.Props
